@@ -44,6 +44,7 @@ type shape struct {
 	syncToo   bool // an extra synchronous handler on a
 	pubCancel int  // publishes use a context: 1 = cancelled before the publish, 2 = cancelled by a task at an explored point, 3 = like 2 but only the first publish uses it, the later ones a live context
 	seq       bool // the async handlers are Sequential too
+	persistT  bool // the bus has a store and a (generous) persistence timeout: neither may touch what the handlers are given
 	onceFirst bool // a synchronous Once handler is registered before the async handlers (it retires during the first publish while another publish may be walking the list)
 	gate      bool // the first invocation of handler a/h0 blocks until everything is published (virtual time): the other deliveries pile up behind it
 	shards    int  // 0: outer and nested event types share a routing shard; 1: nested type in another shard; 2: the same with the roles of the two types swapped
@@ -68,9 +69,12 @@ func (in *inst) Body() {
 	evt.Deliver = func(ti, slot, id int, ctx context.Context) {}
 	cs := &closeStore{MemoryStore: eventbus.NewMemoryStore(), rec: &in.rec}
 	var bus *eventbus.EventBus
-	if s.shutdown {
+	switch {
+	case s.persistT:
+		bus = eventbus.New(eventbus.WithStore(cs), eventbus.WithPersistenceTimeout(time.Hour))
+	case s.shutdown:
 		bus = eventbus.New(eventbus.WithStore(cs))
-	} else {
+	default:
 		bus = eventbus.New()
 	}
 	A, B := bp.Types[0], bp.Types[1]
@@ -458,6 +462,9 @@ func shapes(thorough bool) []shape {
 		{name: "wait/sequential-nested", pubs: 2, seq: true, nested: true},
 		{name: "wait/once-handler-retires-while-another-publish-walks-the-list", pubs: 1, other: 1, twoH: true, onceFirst: true},
 		{name: "wait/2pub-once-handler-first", pubs: 2, twoH: true, onceFirst: true},
+		{name: "wait/store+persistence-timeout", pubs: 2, twoH: true, persistT: true},
+		{name: "wait/store+persistence-timeout/sequential", pubs: 2, seq: true, persistT: true},
+		{name: "shutdown/store+persistence-timeout", pubs: 1, nested: true, shutdown: true, persistT: true},
 		{name: "shutdown/twice-first-succeeds", pubs: 1, shutdown: true, twice: true},
 		{name: "shutdown/twice-first-times-out", pubs: 1, shutdown: true, preCancel: true, twice: true},
 		{name: "shutdown/twice-cancel-race", pubs: 1, shutdown: true, canceller: true, twice: true},
